@@ -1,12 +1,20 @@
 """Engine `helper`: prune_tree / get_subtree of bigtree/tree/helper.py against Algo/Helper.v (C14).
 
-A case is a tree (nested dicts, root first), the tree's separator and one call:
+A case is a tree (nested dicts {"n": name, "a": attrs, "k": [child | None]}, root first; a BinaryNode
+tree when case["binary"], then every node has exactly two child slots, None = empty slot), the tree's
+separator, the start node (case["start"] = child indices from the root; [] = the root) and one call:
   {"fn": "prune", "paths": str | [str], "exact": bool, "psep": str, "max_depth": int}
   {"fn": "subtree", "path": str, "max_depth": int}
-The observation is the pre-order list [depth, name, sorted attrs] of the returned tree (read through
-.children / .depth / vars(), not through bigtree's iterators) or the exception class code."""
+The observation is the pre-order list [depth, name, sorted attrs] of the returned node's subtree with
+depths counted structurally from the returned node (an empty BinaryNode slot is [depth, "", []]),
+read through .children / vars(), not through bigtree's iterators; the returned node's own .depth; or
+the exception class code.  For "subtree" calls the same (node_name_or_path, max_depth) is also sent
+through print_tree and the printed lines are recorded as [depth, name]."""
+import contextlib
 import copy
+import io
 import json
+import re
 
 from ..core import cbool, clist, cnat, copt, cpair, cstr, cZ
 from ._base import *  # noqa
@@ -33,7 +41,22 @@ def coq_check(prop):
 # implementation side
 
 
-def _build(tree, sep):
+def _build(tree, sep, binary):
+    """returns (root, {id(dict): node object})"""
+    objs = {}
+    if binary:
+        from bigtree.node.binarynode import BinaryNode
+
+        def recb(d):
+            n = BinaryNode(d["n"], **d["a"])
+            objs[id(d)] = n
+            n.children = [None if k is None else recb(k) for k in d["k"]]
+            return n
+
+        root = recb(tree)
+        root.sep = sep
+        return root, objs
+
     from bigtree.node.node import Node
 
     def rec(d, parent):
@@ -41,53 +64,96 @@ def _build(tree, sep):
             n = Node(d["n"], sep=sep, **d["a"])
         else:
             n = Node(d["n"], parent=parent, **d["a"])
+        objs[id(d)] = n
         for k in d["k"]:
             rec(k, n)
         return n
 
-    return rec(tree, None)
+    return rec(tree, None), objs
 
 
-def _attrs(node):
+def _attrs(node, binary):
     out = []
     for k, v in vars(node).items():
-        if k.startswith("_") or k == "name":
+        if k.startswith("_") or k == "name" or (binary and k == "val"):
             continue
         out.append([k, v])
     out.sort(key=lambda kv: kv[0])
     return out
 
 
-def _observe(node):
+def _observe(node, binary):
     out = []
 
-    def rec(n):
-        out.append([int(n.depth), n.name, _attrs(n)])
+    def rec(n, depth):
+        if n is None:
+            out.append([depth, "", []])
+            return
+        out.append([depth, n.name, _attrs(n, binary)])
         for c in n.children:
-            rec(c)
+            rec(c, depth + 1)
 
-    rec(node)
+    rec(node, 1)
     return out
+
+
+_LINE = re.compile(r"^((?:\|   |    )*)(\|-- |`-- )(.*)$", re.S)
+
+
+def _printed(start, path, md):
+    from bigtree.tree.export import print_tree
+
+    buf = io.StringIO()
+    try:
+        with contextlib.redirect_stdout(buf):
+            print_tree(start, node_name_or_path=path, max_depth=md, style="ansi")
+    except Exception as e:  # noqa
+        return {"err": exn_code(e)}
+    lines = buf.getvalue().split("\n")
+    if lines and lines[-1] == "":
+        lines.pop()
+    out = []
+    for i, ln in enumerate(lines):
+        m = _LINE.match(ln)
+        if i == 0 or not m:
+            out.append([1 if i == 0 else 0, ln])
+        else:
+            out.append([len(m.group(1)) // 4 + 2, m.group(3)])
+    return {"lines": out}
+
+
+def _start_dict(case):
+    d = case["tree"]
+    for i in case.get("start", []):
+        d = d["k"][i]
+    return d
 
 
 def run_impl(prop, case):
     from bigtree.tree.helper import get_subtree, prune_tree
 
-    root = _build(case["tree"], case["sep"])
-    before = _observe(root)
+    binary = bool(case.get("binary"))
+    root, objs = _build(case["tree"], case["sep"], binary)
+    start = objs[id(_start_dict(case))]
+    before = _observe(root, binary)
     call = case["call"]
+    obs = {}
     try:
         if call["fn"] == "prune":
-            paths = call["paths"]
-            res = prune_tree(root, copy.deepcopy(paths), exact=call["exact"], sep=call["psep"],
+            res = prune_tree(start, copy.deepcopy(call["paths"]), exact=call["exact"], sep=call["psep"],
                              max_depth=call["max_depth"])
         else:
-            res = get_subtree(root, call["path"], call["max_depth"])
+            res = get_subtree(start, call["path"], call["max_depth"])
+        if res is None or not hasattr(res, "children"):
+            obs = {"err": 13}
+        else:
+            obs = {"tree": _observe(res, binary), "top": int(res.depth)}
     except Exception as e:  # noqa
-        return {"err": exn_code(e)}
-    if res is None or not hasattr(res, "children"):
-        return {"err": 13}
-    return {"tree": _observe(res), "source_same": _observe(root) == before}
+        obs = {"err": exn_code(e)}
+    obs["source_same"] = _observe(root, binary) == before
+    if call["fn"] == "subtree" and "\n" not in "".join(x[1] for x in before):
+        obs["print"] = _printed(start, call["path"], call["max_depth"])
+    return obs
 
 
 # ---------------------------------------------------------------------------------------------
@@ -111,6 +177,8 @@ def _cattrs(items):
 
 
 def _ctree(d, counter):
+    if d is None:
+        return "HOLE"
     i = counter[0]
     counter[0] += 1
     kids = [_ctree(k, counter) for k in d["k"]]
@@ -125,12 +193,26 @@ def _ccall(call):
     return f"CSubtree {cstr(call['path'])} {cnat(call['max_depth'])}"
 
 
+def _clbls(rows):
+    return clist(f"({int(d)}, {cstr(n)}, {_cattrs(a)})" for d, n, a in rows)
+
+
 def emit(prop, case, obs):
     if "err" in obs:
         o = f"OErr {int(obs['err'])}"
+        top = 0
     else:
-        o = "OTree " + clist(f"({int(d)}, {cstr(n)}, {_cattrs(a)})" for d, n, a in obs["tree"])
-    return f"HC ({cstr(case['sep'])}) ({_ctree(case['tree'], [0])}) ({_ccall(case['call'])}) ({o})"
+        o = "OTree " + _clbls(obs["tree"])
+        top = int(obs["top"])
+    pr = obs.get("print")
+    if pr is None:
+        p = "None"
+    elif "err" in pr:
+        p = f"(Some (OErr {int(pr['err'])}))"
+    else:
+        p = "(Some (OTree " + _clbls([(d, n, []) for d, n in pr["lines"]]) + "))"
+    return (f"HC {cbool(case.get('binary'))} ({cstr(case['sep'])}) ({_ctree(case['tree'], [0])}) "
+            f"{clist(str(int(i)) for i in case.get('start', []))} ({_ccall(case['call'])}) ({o}) {top} {p}")
 
 
 # ---------------------------------------------------------------------------------------------
@@ -147,26 +229,29 @@ ATTR_KEYS = ["age", "x", "tag"]
 SHAPES = ["wide", "deep", "mixed", "path", "star", "bushy"]
 
 
-def _node(name):
-    return {"n": name, "a": {}, "k": []}
+def _node(name, binary=False):
+    return {"n": name, "a": {}, "k": [None, None] if binary else []}
 
 
-def _walk(tree):
-    """pre-order list of (node dict, names from the root, list of ancestors' dicts)"""
+def _walk(tree, under=None):
+    """pre-order list of real nodes as dicts {d, names (from the root), anc (ancestor dicts), pos};
+    with `under` (a position) only the nodes of that node's subtree"""
     out = []
 
-    def rec(d, names, anc):
+    def rec(d, names, anc, pos):
         names = names + [d["n"]]
-        out.append((d, names, anc))
-        for k in d["k"]:
-            rec(k, names, anc + [d])
+        if under is None or pos[:len(under)] == list(under):
+            out.append({"d": d, "names": names, "anc": anc, "pos": pos})
+        for i, k in enumerate(d["k"]):
+            if k is not None:
+                rec(k, names, anc + [d], pos + [i])
 
-    rec(tree, [], [])
+    rec(tree, [], [], [])
     return out
 
 
 def _height(d):
-    return 1 + max((_height(k) for k in d["k"]), default=0)
+    return 1 + max((_height(k) for k in d["k"] if k is not None), default=0)
 
 
 def gen_shape(rng, shape, n):
@@ -203,29 +288,57 @@ def gen_shape(rng, shape, n):
     return par
 
 
+def _pick_name(rng, pool, sib, i):
+    for _ in range(12):
+        cand = rng.choice(pool)
+        if cand not in sib:
+            return cand
+    return "n%d" % i
+
+
+def _rand_attrs(rng, nd):
+    r = rng.random()
+    if r < 0.35:
+        nd["a"][rng.choice(ATTR_KEYS)] = rng.choice([0, 1, 7, -3, "v", "", True, False, None])
+        if r < 0.08:
+            nd["a"]["y"] = rng.randint(0, 99)
+
+
 def gen_tree(rng, shape, pool_name, n, bad_chars):
     par = gen_shape(rng, shape, n)
     pool = [s for s in NAME_POOLS[pool_name] if not any(ch in s for ch in bad_chars)]
     nodes = []
     for i in range(n):
         sib = [] if par[i] is None else [k["n"] for k in nodes[par[i]]["k"]]
-        name = None
-        for _ in range(12):
-            cand = rng.choice(pool)
-            if cand not in sib:
-                name = cand
-                break
-        if name is None:
-            name = "n%d" % i
-        nd = _node(name)
-        r = rng.random()
-        if r < 0.35:
-            nd["a"][rng.choice(ATTR_KEYS)] = rng.choice([0, 1, 7, -3, "v", "", True, False, None])
-            if r < 0.08:
-                nd["a"]["y"] = rng.randint(0, 99)
+        nd = _node(_pick_name(rng, pool, sib, i))
+        _rand_attrs(rng, nd)
         nodes.append(nd)
         if par[i] is not None:
             nodes[par[i]]["k"].append(nd)
+    return nodes[0]
+
+
+def gen_binary_tree(rng, shape, pool_name, n, bad_chars):
+    """random BinaryNode tree with n real nodes: each new node goes into a free slot; `deep` prefers the
+    most recent node, `path` makes a zigzag chain (always one empty slot)"""
+    pool = [s for s in NAME_POOLS[pool_name] + ["1", "2", "30"] if not any(ch in s for ch in bad_chars)]
+    nodes = [_node(_pick_name(rng, pool, [], 0), True)]
+    depth = [1]
+    _rand_attrs(rng, nodes[0])
+    for i in range(1, n):
+        free = [j for j in range(i) if None in nodes[j]["k"] and depth[j] < 8]
+        if shape in ("deep", "path", "bushy") and rng.random() < (1.0 if shape == "path" else 0.7):
+            j = max(free, key=lambda q: (depth[q], q))
+        else:
+            j = rng.choice(free)
+        slots = [s for s in (0, 1) if nodes[j]["k"][s] is None]
+        s = rng.choice(slots)
+        sib = [k["n"] for k in nodes[j]["k"] if k is not None]
+        nd = _node(_pick_name(rng, pool, sib, i), True)
+        _rand_attrs(rng, nd)
+        nodes[j]["k"][s] = nd
+        nodes.append(nd)
+        depth.append(depth[j] + 1)
     return nodes[0]
 
 
@@ -235,7 +348,7 @@ def _path_name(sep, names):
 
 def _count_hits(walk, tsep, path_in_tsep):
     pn = path_in_tsep.rstrip(tsep)
-    return sum(1 for _, names, _ in walk if _path_name(tsep, names).endswith(pn))
+    return sum(1 for w in walk if _path_name(tsep, w["names"]).endswith(pn))
 
 
 def _renderings(names, psep):
@@ -253,7 +366,7 @@ def _renderings(names, psep):
 
 
 def _render(rng, walk, idx, tsep, psep, want_unique=True):
-    names = walk[idx][1]
+    names = walk[idx]["names"]
     cands = _renderings(names, psep)
     kind_pref = rng.choice(["full", "partial", "name", "any"])
     rng.shuffle(cands)
@@ -269,15 +382,22 @@ def _render(rng, walk, idx, tsep, psep, want_unique=True):
     return chosen
 
 
-def _missing_path(rng, walk, psep):
+def _missing_path(rng, walk, psep, outside):
     r = rng.random()
+    if outside and r < 0.5:
+        # a node of the tree that is not below the start node (an ancestor, a sibling branch)
+        return psep.join(rng.choice(outside)["names"])
     if r < 0.4:
         return rng.choice(["zz", "q", "ax"])
-    a = rng.choice(walk)[1]
-    b = rng.choice(walk)[1]
+    a = rng.choice(walk)["names"]
+    b = rng.choice(walk)["names"]
     if r < 0.7:
         return psep.join(a + ["zz"])
     return psep.join([b[-1], a[0], "zz"])
+
+
+def _related(wi, wj):
+    return any(wj["d"] is x for x in wi["anc"]) or any(wi["d"] is x for x in wj["anc"])
 
 
 def _pick_targets(rng, walk, k, nested_ok):
@@ -285,10 +405,10 @@ def _pick_targets(rng, walk, k, nested_ok):
     tries = 0
     # sometimes: siblings under one parent (with further siblings around)
     if k >= 2 and rng.random() < 0.35:
-        parents = [i for i, (d, _, _) in enumerate(walk) if len(d["k"]) >= 2]
+        parents = [i for i, w in enumerate(walk) if sum(1 for x in w["d"]["k"] if x is not None) >= 2]
         if parents:
-            pd = walk[rng.choice(parents)][0]
-            kids = [i for i, (d, _, _) in enumerate(walk) if any(d is x for x in pd["k"])]
+            pd = walk[rng.choice(parents)]["d"]
+            kids = [i for i, w in enumerate(walk) if any(w["d"] is x for x in pd["k"])]
             rng.shuffle(kids)
             chosen = kids[:k]
     while len(chosen) < k and tries < 30:
@@ -296,16 +416,8 @@ def _pick_targets(rng, walk, k, nested_ok):
         i = rng.randrange(len(walk))
         if i in chosen:
             continue
-        if not nested_ok:
-            di, _, anci = walk[i]
-            clash = False
-            for j in chosen:
-                dj, _, ancj = walk[j]
-                if any(dj is x for x in anci) or any(di is x for x in ancj):
-                    clash = True
-                    break
-            if clash:
-                continue
+        if not nested_ok and any(_related(walk[i], walk[j]) for j in chosen):
+            continue
         chosen.append(i)
     return chosen
 
@@ -313,12 +425,30 @@ def _pick_targets(rng, walk, k, nested_ok):
 def gen_case(rng, tier):
     shape = rng.choice(SHAPES)
     pool_name = rng.choice(["distinct", "repeated", "affix", "affix", "special"])
+    r = rng.random()
+    binary = r >= 0.75
+    inner = (0.55 <= r < 0.75) or r >= 0.92
     n = rng.randint(2, 13) if rng.random() < 0.9 else rng.randint(1, 3)
+    if inner:
+        n = max(n, 4)
+    if binary:
+        n = min(n, 11)
     tsep = rng.choice(SEPS)
     psep = tsep if rng.random() < 0.6 else rng.choice(SEPS)
-    tree = gen_tree(rng, shape, pool_name, n, set(tsep) | set(psep))
-    walk = _walk(tree)
-    h = _height(tree)
+    bad = set(tsep) | set(psep)
+    tree = gen_binary_tree(rng, shape, pool_name, n, bad) if binary else gen_tree(rng, shape, pool_name, n, bad)
+    whole = _walk(tree)
+    start = []
+    if inner:
+        # an inner node, preferably one that has something below it
+        cands = [w for w in whole[1:] if any(k is not None for k in w["d"]["k"])] or whole[1:]
+        if cands:
+            start = rng.choice(cands)["pos"]
+    walk = _walk(tree, start)
+    outside = [w for w in whole if w["pos"][:len(start)] != start]
+    sd = walk[0]["d"]
+    h = _height(sd)
+    mode = ("bin" if binary else "node") + ("-inner" if start else "")
     fn = "prune" if rng.random() < 0.72 else "subtree"
     if fn == "prune":
         r = rng.random()
@@ -327,14 +457,11 @@ def gen_case(rng, tier):
         idxs = _pick_targets(rng, walk, k, nested_ok)
         uniq = rng.random() < 0.8
         paths = [_render(rng, walk, i, tsep, psep, uniq) for i in idxs]
-        kind = "ok"
         r = rng.random()
         if r < 0.12:
-            paths.insert(rng.randint(0, len(paths)), _missing_path(rng, walk, psep))
-            kind = "missing"
+            paths.insert(rng.randint(0, len(paths)), _missing_path(rng, walk, psep, outside))
         elif r < 0.14 and paths:
             paths.insert(rng.randint(0, len(paths)), "")
-            kind = "emptypath"
         arg = paths
         if len(paths) == 1 and rng.random() < 0.5:
             arg = paths[0]
@@ -345,7 +472,7 @@ def gen_case(rng, tier):
         if len(paths) == 0 and rng.random() < 0.8:
             md = rng.randint(1, h + 1)
         call = {"fn": "prune", "paths": arg, "exact": rng.random() < 0.5, "psep": psep, "max_depth": md}
-        label = f"prune{min(len(paths), 3)}/{shape}/{pool_name}"
+        label = f"{mode}/prune{min(len(paths), 3)}/{shape}/{pool_name}"
     else:
         r = rng.random()
         if r < 0.1:
@@ -353,13 +480,13 @@ def gen_case(rng, tier):
         elif r < 0.8:
             path = _render(rng, walk, rng.randrange(len(walk)), tsep, tsep, True)
         elif r < 0.9:
-            path = _missing_path(rng, walk, tsep)
+            path = _missing_path(rng, walk, tsep, outside)
         else:
             path = _render(rng, walk, rng.randrange(len(walk)), tsep, tsep, False)
         md = 0 if rng.random() < 0.4 else rng.randint(1, h + 1)
         call = {"fn": "subtree", "path": path, "max_depth": md}
-        label = f"subtree/{shape}/{pool_name}"
-    return label, {"sep": tsep, "tree": tree, "call": call, "stratum": label}
+        label = f"{mode}/subtree/{shape}/{pool_name}"
+    return label, {"sep": tsep, "tree": tree, "start": start, "binary": binary, "call": call, "stratum": label}
 
 
 def generate(prop, rng, tier):
@@ -374,7 +501,6 @@ def _shapes(n):
     """all ordered trees with n nodes as nested lists of children"""
     if n == 1:
         return [[]]
-    out = []
 
     def forests(m):
         # ordered forests with m nodes in total
@@ -391,8 +517,9 @@ def _shapes(n):
 
 
 def _exhaustive():
-    """small scope: every ordered tree with <= 5 nodes (distinct names), every single target and every
-    non-nested pair of targets (full paths), exact on/off, every depth limit; every get_subtree"""
+    """small scope: every ordered tree with <= 5 nodes (distinct names), every start node, every single
+    target and every non-nested pair of targets below it (full paths), exact on/off, every depth limit;
+    every get_subtree"""
     names = ["a", "b", "c", "d", "e"]
     for n in range(1, 6):
         for shp in _shapes(n):
@@ -405,31 +532,39 @@ def _exhaustive():
                 return d
 
             tree = mk(shp)
-            walk = _walk(tree)
-            h = _height(tree)
-            fulls = ["/".join(nm) for _, nm, _ in walk]
-            sets = [[p] for p in fulls]
-            for i in range(len(walk)):
-                for j in range(i + 1, len(walk)):
-                    di, _, ai = walk[i]
-                    dj, _, aj = walk[j]
-                    if any(di is x for x in aj) or any(dj is x for x in ai):
-                        continue
-                    sets.append([fulls[i], fulls[j]])
-            for ps in sets:
-                for exact in (False, True):
-                    for md in range(0, h + 1):
-                        yield "exhaustive/prune", {"sep": "/", "tree": tree, "stratum": "exhaustive",
+            for st in _walk(tree):
+                start = st["pos"]
+                if start and not st["d"]["k"]:
+                    continue
+                walk = _walk(tree, start)
+                h = _height(st["d"])
+                fulls = ["/".join(w["names"]) for w in walk]
+                sets = [[p] for p in fulls]
+                for i in range(len(walk)):
+                    for j in range(i + 1, len(walk)):
+                        if not _related(walk[i], walk[j]):
+                            sets.append([fulls[i], fulls[j]])
+                lab = "exhaustive" + ("-inner" if start else "")
+                for ps in sets:
+                    for exact in (False, True):
+                        for md in range(0, h + 1):
+                            yield lab + "/prune", {"sep": "/", "tree": tree, "start": start, "binary": False,
+                                                   "stratum": lab,
                                                    "call": {"fn": "prune", "paths": list(ps), "exact": exact,
                                                             "psep": "/", "max_depth": md}}
-            for p in fulls:
-                for md in range(0, h + 1):
-                    yield "exhaustive/subtree", {"sep": "/", "tree": tree, "stratum": "exhaustive",
+                for p in fulls:
+                    for md in range(0, h + 1):
+                        yield lab + "/subtree", {"sep": "/", "tree": tree, "start": start, "binary": False,
+                                                 "stratum": lab,
                                                  "call": {"fn": "subtree", "path": p, "max_depth": md}}
 
 
 def _t(name, kids=(), **attrs):
     return {"n": name, "a": dict(attrs), "k": list(kids)}
+
+
+def _b(name, left=None, right=None, **attrs):
+    return {"n": name, "a": dict(attrs), "k": [left, right]}
 
 
 def corpus(prop):
@@ -438,14 +573,15 @@ def corpus(prop):
                        _t("c", [_t("f", age=38)], age=60)], age=90)
     deep = _t("r", [_t("p", [_t("q", [_t("s", [_t("u"), _t("v"), _t("w")]), _t("t")])]), _t("o")])
     affix = _t("r", [_t("xa", [_t("c")]), _t("d"), _t("a", [_t("b"), _t("ab")])])
+    btree = _b("1", _b("2", None, _b("4", _b("6"), None)), _b("3", _b("5", x=1), None))
     out = []
 
-    def prune(label, tree, paths, exact=False, psep="/", md=0, sep="/"):
-        out.append((label, {"sep": sep, "tree": tree, "stratum": "corpus",
+    def prune(label, tree, paths, exact=False, psep="/", md=0, sep="/", start=(), binary=False):
+        out.append((label, {"sep": sep, "tree": tree, "start": list(start), "binary": binary, "stratum": "corpus",
                             "call": {"fn": "prune", "paths": paths, "exact": exact, "psep": psep, "max_depth": md}}))
 
-    def sub(label, tree, path, md=0, sep="/"):
-        out.append((label, {"sep": sep, "tree": tree, "stratum": "corpus",
+    def sub(label, tree, path, md=0, sep="/", start=(), binary=False):
+        out.append((label, {"sep": sep, "tree": tree, "start": list(start), "binary": binary, "stratum": "corpus",
                             "call": {"fn": "subtree", "path": path, "max_depth": md}}))
 
     prune("doc", doc, "a/b")
@@ -468,6 +604,22 @@ def corpus(prop):
     sub("depth", deep, "q", md=2)
     sub("missing", doc, "zz")
     sub("root", fixture, "", md=2)
+    # inner start node
+    prune("inner", fixture, "e/g", start=[0])
+    prune("inner", fixture, "a/b/e", exact=True, start=[0])
+    prune("inner-depth", fixture, "", md=2, start=[0])
+    prune("inner-outside", fixture, "a/c", start=[0])            # a node outside the start node's subtree
+    prune("inner-ancestor", fixture, "a", start=[0])              # the start node's own ancestor
+    sub("inner", fixture, "e", md=1, start=[0])
+    sub("inner", deep, "", md=2, start=[0, 0])
+    sub("inner-outside", fixture, "c", start=[0])
+    # BinaryNode trees with empty slots
+    prune("binary", btree, "1/2/4", binary=True)
+    prune("binary", btree, "4", exact=True, binary=True)
+    prune("binary", btree, ["1/2", "5"], binary=True)
+    prune("binary", btree, "", md=2, binary=True)
+    prune("binary-inner", btree, "4", start=[0], binary=True)
+    sub("binary", btree, "2", md=2, binary=True)
     # K3 (known finding): with the multi-character separator "->" find_path strips the character
     # *set* {'-','>'} from the right of the prune path, so "r->a-" is looked up as "r->a"
     k3 = _t("r", [_t("a", [_t("c")], x=1), _t("a-", [_t("d")], y=2)])
@@ -489,37 +641,46 @@ def matches_finding(prop, entry, case, obs, flags):
 
 
 def _count(d):
-    return 1 + sum(_count(k) for k in d["k"])
+    return 1 + sum(_count(k) for k in d["k"] if k is not None)
 
 
 def size(case):
     c = case["call"]
     p = c.get("paths", c.get("path"))
     np = len(p) if isinstance(p, list) else 1
-    return 10 * _count(case["tree"]) + 5 * np + len(json.dumps(c)) + sum(len(d["a"]) for d, _, _ in _walk(case["tree"]))
+    return (10 * _count(case["tree"]) + 5 * np + len(json.dumps(c)) + 3 * len(case.get("start", []))
+            + sum(len(w["d"]["a"]) for w in _walk(case["tree"])))
 
 
 def shrink_candidates(prop, case):
     tree = case["tree"]
+    binary = bool(case.get("binary"))
+    start = list(case.get("start", []))
     walk = _walk(tree)
-    # remove one leaf / one whole subtree
+    # remove one whole subtree that does not contain the start node
     for idx in range(len(walk) - 1, 0, -1):
+        pos = walk[idx]["pos"]
+        if start[:len(pos)] == pos:
+            continue
         c = copy.deepcopy(case)
-        w = _walk(c["tree"])
-        d, _, anc = w[idx]
-        parent = anc[-1]
-        parent["k"] = [k for k in parent["k"] if k is not d]
+        w = _walk(c["tree"])[idx]
+        parent = w["anc"][-1]
+        i = pos[-1]
+        if binary:
+            parent["k"][i] = None
+        else:
+            del parent["k"][i]
+            st = list(start)
+            if len(st) >= len(pos) and st[:len(pos) - 1] == pos[:-1] and st[len(pos) - 1] > i:
+                st[len(pos) - 1] -= 1
+            c["start"] = st
         yield c
-    # splice a node out (its children move up)
-    for idx in range(len(walk) - 1, 0, -1):
+    # call on the root of the start node's subtree only (drop everything above it)
+    if start:
         c = copy.deepcopy(case)
-        w = _walk(c["tree"])
-        d, _, anc = w[idx]
-        parent = anc[-1]
-        if d["k"] and not ({k["n"] for k in d["k"]} & {k["n"] for k in parent["k"] if k is not d}):
-            i = [j for j, k in enumerate(parent["k"]) if k is d][0]
-            parent["k"][i:i + 1] = d["k"]
-            yield c
+        c["tree"] = _start_dict(c)
+        c["start"] = []
+        yield c
     call = case["call"]
     if call["fn"] == "prune" and isinstance(call["paths"], list):
         for i in range(len(call["paths"])):
@@ -534,41 +695,48 @@ def shrink_candidates(prop, case):
         c = copy.deepcopy(case)
         c["call"]["exact"] = False
         yield c
-    if any(d["a"] for d, _, _ in walk):
+    if any(w["d"]["a"] for w in walk):
         c = copy.deepcopy(case)
-        for d, _, _ in _walk(c["tree"]):
-            d["a"] = {}
+        for w in _walk(c["tree"]):
+            w["d"]["a"] = {}
         yield c
 
 
 def nontrivial(prop, case, obs):
-    n = _count(case["tree"])
+    n = _count(_start_dict(case))
     if "tree" in obs:
-        return 1 < len(obs["tree"]) < n
+        real = sum(1 for row in obs["tree"] if row[1] != "")
+        return 1 < real < n
     c = case["call"]
     return n >= 3 and c["fn"] == "prune" and isinstance(c["paths"], list) and len(c["paths"]) >= 2
 
 
 def sample(prop, case, obs):
-    return {"sep": case["sep"], "tree": case["tree"], "call": case["call"],
-            "returned": obs.get("tree", None), "exception_code": obs.get("err", None)}
+    return {"sep": case["sep"], "tree": case["tree"], "start": case.get("start", []),
+            "binary": bool(case.get("binary")), "call": case["call"],
+            "returned": obs.get("tree", None), "exception_code": obs.get("err", None),
+            "printed": obs.get("print", None)}
 
 
 def rule(prop):
     return ("random trees (1-13 nodes; shapes wide/deep/mixed/path/star/bushy-at-depth>=4; name pools distinct/"
             "repeated-across-branches/affix-related a,xa,b,ab,bc/special characters; separators / \\ - . |, prune "
-            "separator equal or different) x prune_tree(0-3 non-nested targets written as full/partial/bare-name "
-            "paths, leading/trailing separator, missing and empty paths, str or list argument, exact on/off, "
-            "max_depth 0..height+1) or get_subtree(path, max_depth); thorough adds all ordered trees <= 5 nodes x "
-            "all single/non-nested-pair targets x exact x depth; non-trivial = a returned tree with more than one "
-            "and fewer than all nodes, or an exception on a call with >= 2 paths; distinct by canonical JSON hash")
+            "separator equal or different); modes: Node tree called on its root (55%) or on an inner node (20%), "
+            "BinaryNode tree with empty slots on root (17%) or inner node (8%); x prune_tree(0-3 non-nested targets "
+            "below the start node written as full/partial/bare-name paths, leading/trailing separator, missing paths "
+            "incl. nodes outside the start node's subtree, empty paths, str or list argument, exact on/off, max_depth "
+            "0..height+1) or get_subtree(path, max_depth) + the same arguments through print_tree; thorough adds all "
+            "ordered trees <= 5 nodes x every start node x all single/non-nested-pair targets x exact x depth; "
+            "non-trivial = a returned tree with more than one and fewer than all nodes of the start node's subtree, or "
+            "an exception on a call with >= 2 paths; distinct by canonical JSON hash")
 
 
 def explain(prop, case, obs, flags):
     from ._base import explain as base
     if isinstance(obs, dict) and "_harness_error" not in obs and flags & 2:
         return ("prop_C14 is false on the implementation's output: the returned pre-order (depth, name, attrs) "
-                "list is not `filter keep` of the input tree's (or not the addressed subtree), or a path that "
+                "list is not `filter keep` of the start node's subtree (or not the addressed subtree / not a new "
+                "root / an emptied BinaryNode slot moved / print_tree shows something else), or a path that "
                 "addresses no node was not answered by an exception")
     return base(prop, case, obs, flags)
 
@@ -576,24 +744,31 @@ def explain(prop, case, obs, flags):
 def trusted_base(prop):
     return COMMON_TB + [
         "observation of the returned tree through Node.children / Node.depth / vars(node) (user attributes = "
-        "instance attributes not starting with '_' except name)",
+        "instance attributes not starting with '_' except name, and val for BinaryNode); print_tree output parsed "
+        "as fixed-width ansi prefixes (4 characters per level)",
     ]
 
 
 def partial_clauses(prop):
     return [
-        "start node: theorems and correspondence cover calls on a root (the property's guard); prune_tree / "
-        "get_subtree called on an inner node are not modelled",
         "nested prune targets (one target an ancestor of another) are outside the property's quantifier: the "
         "check skips them (F_SKIP) and C14_prune_kept carries the hypothesis `nested _ = false`",
-        "theorems that speak about which node a path addresses (C14_model_satisfies_prop, C14_prune_kept, "
+        "theorems that speak about which node a path addresses (C14_model_satisfies_prop(_inner), C14_prune_kept, "
         "C14_missing_path_error, C14_subtree_spec) are for a one-character tree separator; for multi-character "
         "separators the faithful model violates the predicate (C14_multichar_sep_refuted = known finding K3-C14); "
         "C14_prune_kept_any_sep, C14_prune_depth, C14_prune_attrs_order, C14_detach_rule hold for all separators",
         "a prune path that addresses several nodes is answered by SearchError in model and code; the predicate "
         "makes no claim there (documented precondition: path names unique); model and code are still compared",
-        "Node trees only (BinaryNode trees, which prune_tree also accepts, are not generated); max_depth is a "
-        "natural number (negative ints behave as 'no limit' in the code and are not generated)",
+        "inner start node: modelled, compared and proved (C14_model_satisfies_prop_inner) under the reading 'the "
+        "tree = the start node's subtree, depths counted from the start node'; what prune_tree leaves *above* the "
+        "returned node (it stays attached to the copied ancestors, node.depth stays absolute) is recorded but not "
+        "constrained",
+        "BinaryNode trees (empty slots preserved): modelled, compared on every run and evaluated against the "
+        "predicate; proved: C14_binary_prune_kept (real nodes of the result = kept real nodes) and "
+        "C14_binary_slots_preserved (no slot moves) for path pruning; the BinaryNode depth cut (two empty slots "
+        "left by `del children`) and the link between `addressed_at true` and the model's search are covered by "
+        "the correspondence run only",
+        "max_depth is a natural number (negative ints behave as 'no limit' in the code and are not generated)",
     ]
 
 
